@@ -20,6 +20,6 @@ Prefer a change in the code paths named here: {', '.join(p['anchors']['files'][:
 
 Deliver, all inside {wt}:
   - the change itself left applied in the worktree (uncommitted), and `git -C {wt} diff > {wt}/MUTATION.diff`
-  - `{wt}/demo.py`: a small self-contained program (uses only dclab and its dependencies, writes only under a fresh temp dir that it removes) that exits non-zero / prints FAIL with the change and exits 0 / prints PASS without it. Verify both yourself: run it with the change, then `git stash`, run it again, `git stash pop`.
+  - `{wt}/demo.py`: a small self-contained program (uses only dclab and its dependencies, writes only under a fresh temp dir that it removes) that exits non-zero / prints FAIL with the change and exits 0 / prints PASS without it. Verify both yourself: run it with the change, then revert the change with `git -C {wt} diff > /tmp/mutwork-{pid.lower()}-{n}/m.diff; git -C {wt} apply -R /tmp/mutwork-{pid.lower()}-{n}/m.diff`, run it again, and re-apply with `git -C {wt} apply /tmp/mutwork-{pid.lower()}-{n}/m.diff`. NEVER use `git stash` (the stash is shared with other worktrees of the same repository and other people are using it). Note that a demo.py placed in the worktree imports the worktree's dclab, because the script's directory comes first on sys.path.
   - `{wt}/MUTATION.md`: 5-10 lines: what you changed, why it breaks the property, what is needed for it to manifest, which tests you ran and their result.
 Finish with a report of at most 15 lines. Do not make more than one mutation; choose one that is subtle but definitely a violation of the property as stated.""")
